@@ -144,7 +144,7 @@ theorem replaceArgs_Er (cx : Cx) (lo hi : Nat) (mode : IdentMode) (sp : Span) (e
       obtain ⟨⟨ys, asg2, args2⟩, s2⟩ := R2
       exact opErL_cons hw h1 h2
 
-theorem replaceExpr_false (e : Node) (mode : IdentMode) (asg args : List Node) (sp : Span) (kind : IdentKind) (s : St) :
+theorem replaceExpr_noExpand (e : Node) (mode : IdentMode) (asg args : List Node) (sp : Span) (kind : IdentKind) (s : St) :
     replaceExpr e mode asg args sp kind false s = replaceExprNoExpand e mode asg args sp kind s := by
   cases e <;> rfl
 
@@ -180,7 +180,7 @@ theorem replaceTplExprs_Er (cx : Cx) (lo hi : Nat) :
       have h1 := replaceExprNoExpand_Er cx lo hi (tplOperand x') x .replace asg args x'.span .expr s hw (tplOperand_Er hf.1)
       have hre : replaceExpr (tplOperand x') .replace asg args x'.span .expr false s
           = replaceExprNoExpand (tplOperand x') .replace asg args x'.span .expr s := by
-        exact replaceExpr_false _ _ _ _ _ _ _
+        exact replaceExpr_noExpand _ _ _ _ _ _ _
       rw [hre]
       generalize replaceExprNoExpand (tplOperand x') .replace asg args x'.span .expr s = R1 at h1
       obtain ⟨⟨y, asg1, args1⟩, s1⟩ := R1
